@@ -252,6 +252,24 @@ def refRun {σ η} (L : Loader σ η) (cfg : Cfg) : σ → List (Event σ) → L
   | _, .store s' :: evs => refRun L cfg s' evs
   | s, .req r :: evs => obsOf (refGetTemplate L cfg s r) :: refRun L cfg s evs
 
+/-- did the request return the **cached object itself** (a hit that was not reloaded)? The caller then
+shares the object with every earlier caller that was handed it. -/
+def servedCached {σ η} (L : Loader σ η) (cfg : Cfg) (c : Cache (Tpl η)) (s : σ) (r : Req) : Bool :=
+  match (c.getitem (cacheKey cfg r.name r.ctx r.kw)).2 with
+  | none => false
+  | some cached =>
+    if cfg.autoReload then
+      match L.uptodate s r.mode cached.h with
+      | .ok true => true
+      | _ => false
+    else true
+
+/-- for every request of a history: was the cached object itself returned? -/
+def runShared {σ η} (L : Loader σ η) (cfg : Cfg) : Cache (Tpl η) → σ → List (Event σ) → List Bool
+  | _, _, [] => []
+  | c, _, .store s' :: evs => runShared L cfg c s' evs
+  | c, s, .req r :: evs => servedCached L cfg c s r :: runShared L cfg (getTemplate L cfg c s r).1 s evs
+
 /-! ## the namespace a request selects, as `cache_key` resolves it -/
 
 def resolveNs (cfg : Cfg) (ctx : Option (Option Str)) (kw : Option Str) : Option Str :=
@@ -337,6 +355,21 @@ def choiceLoader : Loader Store Handle where
       | some v => .ok ((name, v), name, { idx := 1, full := name, ver := v, mode := m })
       | none => .error .notFound
   uptodate s _ h := .ok (s h.idx h.full == some h.ver)
+
+/-- `FileSystemLoader([dir0, dir1])` (after the fixes): the first search path that has the file wins;
+the `uptodate` closure watches only the file that was found. -/
+def fs2Loader : Loader Store Handle where
+  getSource s m name _ _ :=
+    match s 0 name with
+    | some v => .ok ((name, v), name, { idx := 0, full := name, ver := v, mode := m })
+    | none =>
+      match s 1 name with
+      | some v => .ok ((name, v), name, { idx := 1, full := name, ver := v, mode := m })
+      | none => .error .notFound
+  uptodate s m h :=
+    match m, h.mode with
+    | .sync, .async => .ok false
+    | _, _ => .ok (s h.idx h.full == some h.ver)
 
 /-- the entry the namespace-aware test loader looks up: `f"{ns}/{name}"`, keyword argument first,
 then the context global, else the bare name -/
